@@ -41,6 +41,7 @@ LEVEL_TEXT = ('Alias maps are enumerated exhaustively up to 3 entries and sample
 LEVEL_NOTE = 'Trusted: my alias resolution (follow the chain). Not covered: aliases that shadow other variables, cyclic maps.'
 
 VARS = ['A', 'B', 'C', 'D']
+ABSENT = [9999, 'no-such-period', -77]      # labels that are in none of the spans used here
 POOL = ['a1', '_a2', 'a3', 'a4', 'a5', 'GDP', '_g']
 
 
@@ -156,6 +157,12 @@ def apply(m, op, amap, labels, aliased, rep=None):
         return attempt(lambda: m[nm(op[1], op[2])].__setitem__(op[3] % n, op[4]))
     if k == 'read-label':
         return attempt(lambda: float(m[nm(op[1], op[2]), labels[op[3] % n]]))
+    if k == 'read-absent':
+        return attempt(lambda: m[nm(op[1], op[2]), ABSENT[op[3] % len(ABSENT)]])
+    if k == 'set-absent':
+        return attempt(m.__setitem__, (nm(op[1], op[2]), ABSENT[op[3] % len(ABSENT)]), op[4])
+    if k == 'slice-absent':
+        return attempt(lambda: m[nm(op[1], op[2]), labels[0]:ABSENT[op[3] % len(ABSENT)]])
     if k == 'solve':
         return attempt(lambda: m.solve(max_iter=op[1], failures='ignore', errors='ignore'))
     raise ValueError(op)
@@ -220,6 +227,10 @@ def check_case(case):
         d2 = f'{detail}: step {i} {op} (history {ops[:i]})'
         if r1.ok != r2.ok or (not r1.ok and type(r1.exc) is not type(r2.exc)):
             res.fail(f'history/outcome-differs/op={op[0]}', f'{d2}: through aliases {r1!r}, canonical twin {r2!r}')
+            break
+        if op[0].endswith('-absent') and not r1.ok and isinstance(r1.exc, KeyError) and r1.exc.args != r2.exc.args:
+            # "exactly the effect of the same operation on the underlying variable": the same period is reported missing
+            res.fail(f'history/error-differs/op={op[0]}', f'{d2}: through aliases {r1!r}, canonical twin {r2!r}')
             break
         if r1.ok and op[0] in ('read-label', 'solve') and repr(r1.value) != repr(r2.value):
             res.fail(f'history/result-differs/op={op[0]}', f'{d2}: through aliases {r1!r}, canonical twin {r2!r}')
@@ -322,7 +333,7 @@ def acyclic_maps(max_entries):
 
 BASIC_OPS = [['setattr', 0, 1, {'scalar': 7}], ['setitem', 2, 2, {'list': [1, 2, 3, 4]}], ['setlabel', 0, 1, 1, 5.5],
              ['setslice', 2, 1, 1, None, None, 2.5], ['inplace-attr', 0, 2, 0, 9.0], ['replace_values', [[0, 1, {'scalar': 3}], [2, 1, {'scalar': 1}]]],
-             ['read-label', 0, 1, 1], ['solve', 5]]
+             ['read-label', 0, 1, 1], ['read-absent', 0, 1, 0], ['set-absent', 2, 2, 1, 3.5], ['slice-absent', 0, 2, 2], ['solve', 5]]
 
 
 def gen_maps(max_entries):
@@ -383,6 +394,9 @@ def strategy():
             st.tuples(st.just('inplace-attr'), vi, via, pos, scal).map(list),
             st.tuples(st.just('inplace-item'), vi, via, pos, scal).map(list),
             st.tuples(st.just('read-label'), vi, via, pos).map(list),
+            st.tuples(st.just('read-absent'), vi, via, st.integers(0, 2)).map(list),
+            st.tuples(st.just('set-absent'), vi, via, st.integers(0, 2), scal).map(list),
+            st.tuples(st.just('slice-absent'), vi, via, st.integers(0, 2)).map(list),
             st.tuples(st.just('solve'), st.sampled_from([1, 5, 40])).map(list),
         )
         init = draw(st.lists(st.tuples(vi, via, st.lists(scal, min_size=n, max_size=n)).map(list), max_size=2, unique_by=lambda x: x[0] % 4))
